@@ -298,6 +298,11 @@ func (v *DenseInt32Vector) Import(filename string) error {
     }
     fields := strings.Fields(l)
     for i := 0; i < len(fields); i++ {
+      // integer literals are converted exactly (zero keeps its sign below)
+      if value, err := strconv.ParseInt(fields[i], 10, 64); err == nil && value != 0 {
+        *v = append(*v, int32(value))
+        continue
+      }
       value, err := strconv.ParseFloat(fields[i], 64)
       if err != nil {
         return fmt.Errorf("invalid table")
